@@ -191,3 +191,20 @@ package pmm
 //@   ensures range: alloc.kernelStartFrame <= alloc.kernelEndFrame && alloc.kernelEndFrame < 0x10000000000000
 //@   ensures covers: forall(a, uintptr, kernelStart <= a && a < kernelEnd ==> inKernel(alloc, mm.Frame(a >> 12)))
 //@   ensures tight: alloc.kernelStartFrame == mm.Frame(kernelStart >> 12) && alloc.kernelEndFrame == mm.Frame((kernelEnd - 1) >> 12)
+
+// ---- building the pools from the memory map (C01, C03) -----------------------------------------
+// second pass of setupPoolBitmaps, one memory-map entry: an available entry becomes the next
+// pool - its whole frames, all free, with a bitmap of enough 64-bit words for one bit per frame,
+// placed at the running bitmap address; any other entry changes nothing
+//@ func (alloc *BitmapAllocator) setupPoolBitmaps$2(region *multiboot.MemoryMapEntry) (cont bool)
+//@   property C01 C03
+//@   raw region
+//@   rawstores
+//@   requires alloc != nil && pageSizeMinus1 == 4095 && poolIndex >= 0 && addrof(region) < 0x1000000000000 && regSane(addrof(region))
+//@   requires mem32(addrof(region)+16) == 1 ==> poolIndex < len(alloc.pools) && regStart(addrof(region)) <= regEnd(addrof(region))
+//@   modifies poolIndex, bitmapStartAddr, framePool.startFrame, framePool.endFrame, framePool.freeCount, framePool.freeBitmap, reflect.SliceHeader.Data, reflect.SliceHeader.Len, reflect.SliceHeader.Cap
+//@   ensures goes: cont
+//@   ensures skip: mem32(addrof(region)+16) != 1 ==> poolIndex == old(poolIndex) && bitmapStartAddr == old(bitmapStartAddr)
+//@   ensures pool: mem32(addrof(region)+16) == 1 ==> poolIndex == old(poolIndex) + 1 && alloc.pools[old(poolIndex)].startFrame == regStart(addrof(region)) && alloc.pools[old(poolIndex)].endFrame == regEnd(addrof(region)) && alloc.pools[old(poolIndex)].freeCount == uint32(regEnd(addrof(region)) - regStart(addrof(region)) + 1)
+//@   ensures bitmap: mem32(addrof(region)+16) == 1 ==> alloc.pools[old(poolIndex)].freeBitmapHdr.Data == old(bitmapStartAddr) && alloc.pools[old(poolIndex)].freeBitmapHdr.Cap == alloc.pools[old(poolIndex)].freeBitmapHdr.Len && bitmapStartAddr == old(bitmapStartAddr) + uintptr(alloc.pools[old(poolIndex)].freeBitmapHdr.Len)*8
+//@   ensures sized: mem32(addrof(region)+16) == 1 ==> alloc.pools[old(poolIndex)].freeBitmapHdr.Len >= 0 && uint64(alloc.pools[old(poolIndex)].freeBitmapHdr.Len)*64 >= uint64(regEnd(addrof(region)) - regStart(addrof(region))) + 1 && uint64(alloc.pools[old(poolIndex)].freeBitmapHdr.Len)*64 < uint64(regEnd(addrof(region)) - regStart(addrof(region))) + 1 + 64
